@@ -451,9 +451,9 @@ class CExec:
                 b.assume(z3.Not(t))
                 a.trace.append('if@%s:T' % self.line(n))
                 b.trace.append('if@%s:F' % self.line(n))
-                if not z3.is_false(t):
+                if not z3.is_false(t) and self.feasible(a):
                     out.extend(self.step(inner[1], a))
-                if not z3.is_true(t):
+                if not z3.is_true(t) and self.feasible(b):
                     out.extend(self.step(inner[2], b) if len(inner) > 2 else [(b, FALL, None)])
             return out
         if k == 'SwitchStmt':
